@@ -43,6 +43,8 @@ type Reader struct {
 
 	offset int
 	rPool  bool
+
+	childErrs int // child boxes whose content could not be read so far
 }
 
 // NewReader returns a new bmff.Reader
